@@ -285,6 +285,12 @@ class IH5MFRecord(IH5Record):
         """
         manifest = IH5Manifest.parse_file(manifest_file)
 
+        # the manifest of the stub must not replace one belonging to another container
+        # (e.g. the very manifest file the stub is created from)
+        stub_mf = cls._manifest_filepath(str(cls._base_filename(Path(record).absolute())))
+        if stub_mf.exists():
+            raise FileExistsError(f"{stub_mf}: will not overwrite an existing manifest!")
+
         skeleton: IH5Skeleton = manifest.skeleton
         user_block: IH5UserBlock = manifest.user_block.copy()
 
